@@ -19,6 +19,7 @@ structure St where
   cfg : Option Config := none
   log : List Obs := []        -- the IMPLEMENTATION's observable trace so far (chronological)
   lastD : Int := 0            -- the implementation's most recent backoff answer
+  created : Bool := false
 
 def showEv : SimEv → String
   | .bo t i d => s!"{t}:bo:{i}:{d}"
@@ -57,12 +58,13 @@ def defaultCfg : Config :=
 def modelStep (st : St) (fs : List String) (impl : String) : St × String :=
   let oracle := oracleOf impl
   let s := st.sim
+  if !st.created && fs.head? ≠ some "new" && fs.head? ≠ some "newdef" then (st, "nochan") else
   match fs with
   | ["new", b, m, j, x, ct] =>
     match Backoff.parseCfg b m j x, ct.toInt? with
-    | some c, some minCT => ({ st with sim := { minCT := minCT }, cfg := some c }, "st=IDLE")
+    | some c, some minCT => ({ st with sim := { minCT := minCT }, cfg := some c, created := true }, "st=IDLE")
     | _, _ => (st, "bad-op")
-  | ["newdef"] => ({ st with sim := { minCT := backoffMinConnectTimeout }, cfg := none }, "st=IDLE")
+  | ["newdef"] => ({ st with sim := { minCT := backoffMinConnectTimeout }, cfg := none, created := true }, "st=IDLE")
   | ["mode", m] =>
     let md := if m = "ok" then Mode.ok else if m = "hang" then Mode.hang else Mode.fail
     let s' := { s with mode := md }
@@ -109,7 +111,7 @@ def step : Step St := fun st fs impl =>
     else if i = 0 then (if d = cfg.base then "ok" else s!"VIOL Backoff(0) = {d} is not the base delay")
     else judge cfg i d) "ok"
   let verdict :=
-    if fs.head? = some "new" ∨ fs.head? = some "newdef" then "-"
+    if fs.head? = some "new" ∨ fs.head? = some "newdef" ∨ !st1.created then "-"
     else if bandV ≠ "ok" then bandV
     else if !paced log then "VIOL a connection attempt started before the backoff of the preceding failure had elapsed (no reset in between)"
     else if !idxOk 0 log then "VIOL the backoff index is not the number of failures since the last success/reset"
